@@ -66,7 +66,11 @@ def run_cell(cell, rec, seed):
     mk, R1, R2, D = cell["mk"], cell["R1"], cell["R2"], cell["D"]
     N = 6
     for rep in range(cell.get("reps", 1)):
-        for fk in build.FACTOR_KINDS:
+        # the order in which the factor kinds meet a given shape is part of the history (a
+        # process-wide memo poisoned by one kind only shows for the kinds that come after it)
+        kinds = list(build.FACTOR_KINDS)
+        gen.rng_for(seed, "C01-order", mk, R1, R2, D, rep).shuffle(kinds)
+        for fk in kinds:
             for uf in (False, True):
                 for cache in ("none", "filled"):
                     if mk.endswith("pdf") and cache == "none":
